@@ -36,6 +36,7 @@ type C05Scn struct {
 	// input" must not depend on what the process built in between: pooled or
 	// package-level builder state).
 	Poison string `json:"build_in_between,omitempty"`
+	Matrix bool   `json:"transition_matrix,omitempty"`
 	Chunk  int    `json:"chunk"`
 }
 
@@ -214,7 +215,76 @@ func poisonSpec(kind string) *TrieSpec {
 	return s
 }
 
+// genC05Matrix: one key set, M = 12 inputs that differ in option combination,
+// presence of values and emptiness (plus a single-key and a perturbed input),
+// and a history on ONE instance that contains every ordered pair (i -> j) of
+// them as consecutive checked loads, through both entry points, with a few
+// Resets in between. Residue is a property of a PAIR (what the instance held,
+// what it is given); random histories of length <= 4 hit a given pair class by
+// luck, this covers the pair classes of a sample exhaustively.
+func genC05Matrix(r *Rng) *C05Scn {
+	c := &C05Scn{Chunk: 4096, Start: "fresh"}
+	keys, name := genKeys(r, GenLimits{MaxKeys: 150})
+	for len(keys) < 3 {
+		keys, name = genKeys(r, GenLimits{MaxKeys: 150})
+	}
+	enc := r.PickS("i32", "i32", "str16", "u16", "structle", "userenc", "i64")
+	vals := make([]int64, len(keys))
+	for i := range vals {
+		vals[i] = int64(i / r.Range(1, 2))
+	}
+	add := func(sp TrieSpec, nm string) {
+		sp.Enc = enc
+		c.Inputs = append(c.Inputs, sp)
+		c.Gens = append(c.Gens, nm)
+		c.PermSeeds = append(c.PermSeeds, r.U64(), r.U64())
+		c.Queries = append(c.Queries, genQueries(r, sp.Keys, 14))
+	}
+	const M = 12
+	combos := r.Perm(32)
+	for _, cb := range combos[:M-3] {
+		sp := TrieSpec{Keys: keys}
+		for b := 0; b < 4; b++ {
+			sp.Opt[b] = int8(cb >> uint(b) & 1)
+			if r.Chance(0.15) {
+				sp.Opt[b] = -1
+			}
+		}
+		if cb&16 != 0 {
+			sp.ValIDs = vals
+		}
+		add(sp, name+"/matrix")
+	}
+	add(TrieSpec{Opt: genOpt(r)}, "empty")
+	add(TrieSpec{Keys: keys[:1], ValIDs: vals[:1], Opt: genOpt(r)}, "single")
+	pk := perturbKeys(r, keys)
+	pv := vals
+	if len(pk) != len(keys) {
+		pv = nil
+	}
+	add(TrieSpec{Keys: pk, ValIDs: pv, Opt: c.Inputs[0].Opt}, name+"/perturbed")
+	var pairs [][2]int
+	for i := 0; i < M; i++ {
+		for j := 0; j < M; j++ {
+			pairs = append(pairs, [2]int{i, j})
+		}
+	}
+	for _, pi := range r.Perm(len(pairs)) {
+		p := pairs[pi]
+		if r.Chance(0.08) {
+			c.History = append(c.History, C05Step{Op: "reset"})
+		}
+		c.History = append(c.History, C05Step{Op: r.PickS("unmarshal", "unmarshal", "protounmarshal"), Src: p[0]})
+		c.History = append(c.History, C05Step{Op: r.PickS("unmarshal", "unmarshal", "protounmarshal"), Src: p[1]})
+	}
+	c.Matrix = true
+	return c
+}
+
 func (c *C05Scn) historyString() string {
+	if c.Matrix {
+		return fmt.Sprintf("matrix(%d inputs, %d steps)", len(c.Inputs), len(c.History))
+	}
 	var sb strings.Builder
 	sb.WriteString(c.Start)
 	for _, h := range c.History {
@@ -691,6 +761,9 @@ func executeC05(scn *Scenario) *RunResult {
 		res.Counters["shape."+s]++
 	}
 	res.Counters["start."+c.Start]++
+	if c.Matrix {
+		res.Counters["transition_matrix_scenarios"]++
+	}
 	res.NonTrivial = pr.permNonIdentity >= 2 || pr.loadsOverContent > 0
 	if res.NonTrivial {
 		res.Distinct = []uint64{hash64(strings.Join(pr.shape, ","), c.historyString(), c.Start)}
